@@ -82,10 +82,18 @@ def networkx_to_rdkit(mol_graph):
         order = data.get('order', 1)
         bt = BOND_TYPE_MAP.get(order, 1)
         mol.AddBond(node_to_idx[u], node_to_idx[v], bt)
+        # aromaticity is taken from the graph: only bonds of order 1.5 are aromatic
+        if order == 1.5:
+            mol.GetBondBetweenAtoms(node_to_idx[u], node_to_idx[v]).SetIsAromatic(True)
+            mol.GetAtomWithIdx(node_to_idx[u]).SetIsAromatic(True)
+            mol.GetAtomWithIdx(node_to_idx[v]).SetIsAromatic(True)
 
     mol = mol.GetMol()
-    # some clean up to get the molecule up to speed
-    Chem.SanitizeMol(mol)
+    # some clean up to get the molecule up to speed; RDKit must not re-perceive
+    # aromaticity with its own model (it would turn the localized bonds of e.g.
+    # pyrrole or furan into aromatic ones) nor kekulize the aromatic bonds
+    Chem.SanitizeMol(mol,
+                     sanitizeOps=Chem.SANITIZE_ALL ^ Chem.SANITIZE_KEKULIZE ^ Chem.SANITIZE_SETAROMATICITY)
 
     return mol
 
